@@ -9,6 +9,8 @@ import (
 
 // IsHunting returns true if the ip is activelly hunted via a goroutine
 func (h *Handler) IsHunting(ip netip.Addr) bool {
+	h.arpMutex.RLock() // the hunt list is changed by StartHunt / StopHunt under arpMutex
+	defer h.arpMutex.RUnlock()
 	_, b := h.findHuntByIP(ip)
 	return b
 }
